@@ -122,6 +122,8 @@ class Hist(object):
             if p is None: return None
             if op == 'rem':
                 ch = self.childish(p, b)
+                pc = self.pick_rem(a, b, c)
+                if pc is not None: p, ch = pc
                 if ch is None: return None
                 if p.id in self.inserted_parents and ch.parent is p: L.add('remove-after-insert')
                 self.removal_hook('rem', p, ch, None)
@@ -281,7 +283,17 @@ class Hist(object):
     def concretise_ext(self, op, ab):
         return None
     def removal_hook(self, kind, p, c, ref): pass
+    def pick_rem(self, a, b, c): return None
     def text_hook(self, op, n, off, cnt): pass
+    def pick_rem(self, a, b, c):
+        """every third removeChild aims at the reference node of a live iterator or at a range container (or an ancestor of it)"""
+        if a % 3 != 2: return None
+        cands = [v.ref for v in self.views('I') if not v.detached] + [r.sc for r in self.views('R') if not r.detached] + [r.ec for r in self.views('R') if not r.detached]
+        n = self.pick(cands, b)
+        for _ in range(c % 3):
+            if n is not None and n.parent is not None and n.parent.parent is not None: n = n.parent
+        if n is None or n.parent is None: return None
+        return n.parent, n
     def split_pre(self, n, off):
         if n.readonly or off > len(n.value): return
         for r in self.views('R'):
@@ -557,6 +569,15 @@ class ViewHist(Hist):
         for r in self.views('R'):
             if r.detached or r.sc is not n: continue
             if (op == 'insd' and r.so > off) or (op == 'repd' and r.so > off + cnt): raise Excluded('C14-range-start-clamped-on-text-insert')
+    def pick_rem(self, a, b, c):
+        """every third removeChild aims at the reference node of a live iterator or at a range container (or an ancestor of it)"""
+        if a % 3 != 2: return None
+        cands = [v.ref for v in self.views('I') if not v.detached] + [r.sc for r in self.views('R') if not r.detached] + [r.ec for r in self.views('R') if not r.detached]
+        n = self.pick(cands, b)
+        for _ in range(c % 3):
+            if n is not None and n.parent is not None and n.parent.parent is not None: n = n.parent
+        if n is None or n.parent is None: return None
+        return n.parent, n
     def split_pre(self, n, off):
         if n.readonly or off > len(n.value): return
         for r in self.views('R'):
@@ -667,7 +688,10 @@ class ViewHist(Hist):
             it = dm.NodeIter(w, d, root, dm.SHOW_ALL, None, True)
             self.emit(('cit\t%d\t%d\t%d\t-\t1' % (d.id, root.id, dm.SHOW_ALL), Res.ok(('v', it.id))))
             self.emit(('itn\t%d' % it.id, it.nextNode()))
-            if kind >= 2: self.emit(('itn\t%d' % it.id, it.nextNode()))
+            if kind >= 2:
+                for _ in range(5 if kind == 2 else 9): self.emit(('itn\t%d' % it.id, it.nextNode()))
+                self.emit(('itp\t%d' % it.id, it.previousNode()))
+                if kind == 3: self.emit(('itp\t%d' % it.id, it.previousNode()))
             l = dm.TagList(w, d, False, None, '*')
             self.emit(('gebt\t%d\t*' % d.id, Res.ok(('v', l.id))))
             r = dm.Range(w, d)
